@@ -15,6 +15,8 @@ struct Cfg {
   uint32_t block_size = 65536;
   uint32_t fill_pattern = 0;
   int max_live = 4;
+  std::vector<int> ops;   // alphabet as raw op ids; empty = the standard alphabet (raw ops 0..33)
+  int raw(int i) const { return ops.empty() ? i : ops[i]; }
   std::string name() const {
     char b[96]; snprintf(b, sizeof b, "opt=%#x,g=%u", options, granularity); return b;
   }
@@ -72,9 +74,12 @@ struct Sys {
   }
 
   // ---- op alphabet (fixed size; an op whose slot does not exist is a no-op and is merged away) ----
-  // 0..7 alloc sizes, 8..11 release(i), 12..27 shrink(i, mode), 28..31 write+shrink(i), 32 reset soft, 33 reset hard
-  static constexpr int kNumOps = 34;
-  int num_ops() const { return kNumOps; }
+  // 0..7 alloc sizes, 8..11 release(i), 12..27 shrink(i, mode), 28..31 write+shrink(i), 32 reset soft, 33 reset hard,
+  // 34..36 alloc sizes at the block-growth steps (the first block of a pool is 2*B, every further block doubles)
+  static constexpr int kNumOps = 37;
+  static bool is_alloc(int op) { return op < 8 || op >= 34; }
+  static int alloc_index(int op) { return op < 8 ? op : 8 + (op - 34); }
+  int num_ops() const { return cfg.ops.empty() ? 34 : (int)cfg.ops.size(); }
   size_t alloc_size(int k) const {
     size_t pad = (cfg.options & kNoPad) ? 0 : G;
     switch (k) {
@@ -85,12 +90,17 @@ struct Sys {
       case 4: return B - pad;            // exactly fills a fresh base block
       case 5: return B;                  // needs a bigger block when padding is on
       case 6: return 0;                  // invalid
+      case 8: return 2 * B - pad;        // exactly fills the first (doubled) block
+      case 9: return 2 * B;              // equals the regular size of the first block: padding no longer fits
+      case 10: return 4 * B;             // equals the regular size of the second block
       default: return size_t(1) << 32;   // too large
     }
   }
-  std::string op_name(int op) const {
+  std::string op_name(int i) const { return raw_name(cfg.raw(i)); }
+  bool apply(int i, std::string& why) { return apply_raw(cfg.raw(i), why); }
+  std::string raw_name(int op) const {
     char b[64];
-    if (op < 8) snprintf(b, sizeof b, "alloc(%zu)", alloc_size(op));
+    if (is_alloc(op)) snprintf(b, sizeof b, "alloc(%zu)", alloc_size(alloc_index(op)));
     else if (op < 12) snprintf(b, sizeof b, "release(#%d)", op - 8);
     else if (op < 28) { static const char* m[] = {"0", "1", "half", "same+1"}; snprintf(b, sizeof b, "shrink(#%d,%s)", (op - 12) / 4, m[(op - 12) % 4]); }
     else if (op < 32) snprintf(b, sizeof b, "write+shrink(#%d)", op - 28);
@@ -122,12 +132,12 @@ struct Sys {
     return best;
   }
 
-  bool apply(int op, std::string& why) {
+  bool apply_raw(int op, std::string& why) {
     if (env_skip) return true;
     JitAllocator& A = *alloc;
-    if (op < 8) {
+    if (is_alloc(op)) {
       if ((int)live.size() >= cfg.max_live) return true;
-      size_t req = alloc_size(op);
+      size_t req = alloc_size(alloc_index(op));
       std::vector<BlockInfo> before = blocks();
       size_t reserved_before = A.statistics().reserved_size();
       size_t free_before[3] = {model_largest_free(before, 0), model_largest_free(before, 1), model_largest_free(before, 2)};
@@ -416,7 +426,7 @@ int main(int argc, char** argv) {
     }
     cfg.fill_pattern = 0xA1B2C3D4u;
     Sys s(cfg); std::string why, names;
-    for (int op : h) { names += s.op_name(op) + ";"; if (!s.apply(op, why)) { c.violation("replay", why + " after " + names, c.replay_text); break; } }
+    for (int op : h) { names += s.raw_name(op) + ";"; if (!s.apply_raw(op, why)) { c.violation("replay", why + " after " + names, c.replay_text); break; } }
     return vh::finish();
   }
   // work plan: list of (configuration, depth, root split R); every unit (cfg, root shard) is one BFS
@@ -438,8 +448,20 @@ int main(int argc, char** argv) {
     std::vector<Cfg> d6; d6.push_back(configs(false)[0]); d6.push_back(configs(false)[1]);
     phases.push_back(Phase{d6, 6, 16});
   }
+  {
+    // growth phase: requests at the block-size steps (2B-pad, 2B, 4B) with small companions, releases and resets:
+    // "the block that is created for a request can hold it, with and without the initial padding"
+    std::vector<Cfg> g;
+    for (uint32_t opt : {0u, (uint32_t)kNoPad, (uint32_t)(kMulti | kFill), (uint32_t)kImm}) {
+      Cfg x; x.fill_pattern = 0xA1B2C3D4u; x.options = opt; x.granularity = 64; x.ops = {0, 3, 4, 5, 34, 35, 36, 8, 9, 12 + 2, 32, 33}; g.push_back(x);
+      if (!c.thorough()) continue;
+      x.granularity = 256; g.push_back(x);
+    }
+    if (c.opt("depth").empty()) phases.push_back(Phase{g, c.thorough() ? 5 : 4, 1});
+  }
+  const Cfg* cur_cfg = nullptr;
   xplor::case_formatter() = [&](const std::string& cfg_name, const std::vector<int>& h) {
-    std::string ops; for (size_t i = 0; i < h.size(); i++) { if (i) ops += ","; ops += std::to_string(h[i]); }
+    std::string ops; for (size_t i = 0; i < h.size(); i++) { if (i) ops += ","; ops += std::to_string(cur_cfg ? cur_cfg->raw(h[i]) : h[i]); }
     unsigned o = 0, g = 0; sscanf(cfg_name.c_str(), "opt=%x,g=%u", &o, &g);
     char cf[64]; snprintf(cf, sizeof cf, "cfg=%x,%u,%d", o, g, 4);
     return std::string("harness=c09_jitalloc\n") + cf + "\nops=" + ops + "\n";
@@ -448,11 +470,12 @@ int main(int argc, char** argv) {
   long long unit = 0;
   std::string bound;
   for (auto& ph : phases) {
-    bound += std::to_string(ph.cfgs.size()) + " configurations to depth " + std::to_string(ph.depth) + "; ";
+    bound += std::to_string(ph.cfgs.size()) + " configurations to depth " + std::to_string(ph.depth) + (ph.cfgs[0].ops.empty() ? "" : " over the block-growth alphabet") + "; ";
     for (size_t ui = 0; ui < ph.cfgs.size() * ph.R; ui++) {
       if (!c.mine(unit++)) continue;
       if (c.out_of_time()) break;
       Cfg cfg = ph.cfgs[ui / ph.R]; int ri = int(ui % ph.R);
+      cur_cfg = &cfg;
       auto onv = [&](const std::vector<int>& h, const std::string& names, const std::string& why) {
         std::string clause = why.substr(0, why.find(':'));
         c.violation("jitalloc:" + clause, why + " :: " + cfg.name() + " history " + names, xplor::case_formatter()(cfg.name(), h) + "# " + names + "\n");
@@ -467,7 +490,7 @@ int main(int argc, char** argv) {
   }
   c.n("bfs_units_completed_to_depth") += done_cfgs;
   c.strs["bound"] = bound + "<=4 live spans";
-  c.strs["rule"] = "BFS over histories of {alloc(1,2g,B/4,B/2,B-pad,B,0,2^32), release(#i), shrink(#i,{0,1,half,larger}), write+shrink(#i), reset(soft|hard)} on a real "
+  c.strs["rule"] = "BFS over histories of {alloc(1,2g,B/4,B/2,B-pad,B,0,2^32; growth phase: 1,B/2,B-pad,B,2B-pad,2B,4B), release(#i), shrink(#i,{0,1,half,larger}), write+shrink(#i), reset(soft|hard)} on a real "
                    "JitAllocator with 64 KiB blocks; a state is distinct when its canonical form (per pool: block list with flags, search window, largest-unused cache, "
                    "used/stop bit vectors; cursor; empty count; allocation count) was not seen before; the oracle (span model, queries, statistics, fill pattern, "
                    "reuse, empty-block policy, bit-vector cross-check) runs after every transition";
